@@ -15,11 +15,14 @@ DECS = [0.0, 1.0, -1.0, 0.5, 1.5, -2.5, 0.1, 0.25, 2.0, 3.0, 7.0, 42.0, 100.0,
 STR_ALPHA = ["a", "b", "A", "z", " ", "!", "\"", "#", "&", "'", "(", ")", "*",
              "+", ",", "-", ".", "/", "//", "0", "1", ":", ";", "<", "=", ">",
              "?", "[", "\\", "]", "^", "_", "{", "|", "}", "~", "\t", "\n", "\r",
-             "é", "日", "\x00", "$", "%", "\\n", "\\x41", "x41"]
+             "é", "日", "\x00", "$", "%", "\\n", "\\x41", "x41",
+             # not printable and beyond U+00FF (zero-width, separators, BOM, private use), controls, astral
+             "\u200b", "\u200d", "\u2028", "\u2029", "\ufeff", "\u3000", "\ue000", "\x7f", "\x85", "\xa0", "\xad", "\x1b", "\x0c", "\U0001f600"]
 FIXED_STRS = ["", "a", "b", "ab", "a b", "abc", "A", "'", "\"", "\\", "\n", "\t",
               "\r\n", "a'b", "a\"b", "a\\b", "# x", "//", "a//b", "{x}", "a|b",
               " a", "a ", "é", "日本", "\x00", "TRUE", "NULL", "1", "1.0", "'a'",
-              "a,b", "[1]", "<<1>>", "it's", "\\'", "\\\\", "x\\", "'x", "x'"]
+              "a,b", "[1]", "<<1>>", "it's", "\\'", "\\\\", "x\\", "'x", "x'",
+              "zero\u200bwidth", "\ufeffbom", "a\u2028b", "\U0001f600"]
 PAT_TEXTS = ["a", "a+", "[a-z]*", "x|y", "^ab$", "\\d+", "a.b", "(a)(b)",
              "", "/", "a/", "/a", "a//b", "a/b", "'", "\\\\", "a b", "\t"]
 
